@@ -1574,3 +1574,294 @@ Proof.
   - now apply info_maintenance_lists.
   - intros Hnd. rewrite (step_present s (Maintain kss removed current recreated) _ k Hinv I Hnd Hstep'). cbn [spec_present_step]. now rewrite keep_table_spec.
 Qed.
+
+(* ------------------------------------------------------------------------------------ *)
+(* O. the declarative reading as an equivalence                                          *)
+(* ------------------------------------------------------------------------------------ *)
+
+Lemma maintain_fold_none k post :
+  fold_left (fun cur o => match o, cur with
+                          | Maintain kss rm cu rc, Some e => spec_maintain kss rm cu rc k e
+                          | _, _ => cur end) post None = None.
+Proof. induction post as [|o post IH]; [reflexivity|]. cbn [fold_left]. destruct o; exact IH. Qed.
+
+Lemma spec_maintain_all_app k p1 p2 e :
+  spec_maintain_all k (p1 ++ p2) e =
+  match spec_maintain_all k p1 e with Some e1 => spec_maintain_all k p2 e1 | None => None end.
+Proof.
+  unfold spec_maintain_all. rewrite fold_left_app.
+  destruct (fold_left _ p1 (Some e)) as [e1|]; [reflexivity|]. apply maintain_fold_none.
+Qed.
+
+Lemma spec_maintain_all_range k post e e' :
+  spec_maintain_all k post e = Some e' -> e_first e' = e_first e /\ e_last e' = e_last e.
+Proof.
+  revert e. induction post as [|o post IH]; intros e H.
+  - injection H as <-. split; reflexivity.
+  - change (o :: post) with ([o] ++ post) in H. rewrite spec_maintain_all_app in H.
+    destruct o as [k' a b raw known|kss rm cu rc]; cbn in H.
+    + now apply IH.
+    + destruct (spec_maintain kss rm cu rc k e) as [e1|] eqn:E1.
+      * destruct (spec_maintain_range _ _ _ _ _ _ _ E1) as [A B]. destruct (IH e1 H) as [C D]. split; congruence.
+      * discriminate.
+Qed.
+
+(* ONLY IF: whatever answers a token is the latest accepted payload covering it, not overlapped
+   by a later accepted payload of the table, with the later maintenance events applied *)
+Lemma spec_entry_inv hist k tok e :
+  spec_entry hist k tok = Some e ->
+  exists pre a b raw known post,
+    hist = pre ++ Learn k a b raw known :: post /\ spec_payload_ok a b raw = true /\ a < tok <= b /\
+    forallb (fun o => negb (accepted_overlap k (a + 1) b o)) post = true /\
+    spec_maintain_all k post (spec_entry_of a b raw known) = Some e.
+Proof.
+  revert e. induction hist as [|o hist IH] using rev_ind; intros e H; [discriminate|].
+  rewrite spec_entry_app in H. cbn [fold_left] in H.
+  destruct o as [k' a b raw known|kss rm cu rc]; cbn [spec_step] in H.
+  - destruct (tkey_eqb k' k && spec_payload_ok a b raw) eqn:Eacc.
+    + apply andb_true_iff in Eacc as [Ek Eok]. apply tkey_eqb_eq in Ek. subst k'.
+      destruct ((a <? tok) && (tok <=? b)) eqn:Ecov.
+      * injection H as <-. exists hist, a, b, raw, known, []. repeat split; try assumption; try reflexivity; lia.
+      * destruct (spec_entry hist k tok) as [e0|] eqn:E0; [|discriminate].
+        destruct (ranges_overlap (a + 1) b (e_first e0) (e_last e0)) eqn:Eov; [discriminate|]. injection H as <-.
+        destruct (IH e0 eq_refl) as (pre & a0 & b0 & raw0 & known0 & post & -> & Hok & Htok & Hpost & Hall).
+        destruct (spec_maintain_all_range _ _ _ _ Hall) as [Hf Hl]. cbn in Hf, Hl.
+        exists pre, a0, b0, raw0, known0, (post ++ [Learn k a b raw known]).
+        split; [now rewrite <- app_assoc|]. split; [assumption|]. split; [assumption|]. split.
+        -- rewrite forallb_app, Hpost. cbn [forallb accepted_overlap]. rewrite tkey_eqb_refl, Eok, <- Hf, <- Hl, Eov. reflexivity.
+        -- rewrite spec_maintain_all_app, Hall. reflexivity.
+    + destruct (IH e H) as (pre & a0 & b0 & raw0 & known0 & post & -> & Hok & Htok & Hpost & Hall).
+      exists pre, a0, b0, raw0, known0, (post ++ [Learn k' a b raw known]).
+      split; [now rewrite <- app_assoc|]. split; [assumption|]. split; [assumption|]. split.
+      * rewrite forallb_app, Hpost. cbn [forallb accepted_overlap]. rewrite Eacc. reflexivity.
+      * rewrite spec_maintain_all_app, Hall. reflexivity.
+  - destruct (spec_entry hist k tok) as [e0|] eqn:E0; [|discriminate].
+    destruct (IH e0 eq_refl) as (pre & a0 & b0 & raw0 & known0 & post & -> & Hok & Htok & Hpost & Hall).
+    exists pre, a0, b0, raw0, known0, (post ++ [Maintain kss rm cu rc]).
+    split; [now rewrite <- app_assoc|]. split; [assumption|]. split; [assumption|]. split.
+    + rewrite forallb_app, Hpost. reflexivity.
+    + rewrite spec_maintain_all_app, Hall. cbn. exact H.
+Qed.
+
+(* C15_answered_iff: for the code *)
+Lemma answered_iff hist s k tok reps :
+  Forall op_i64 hist -> run hist = Some s ->
+  (lookup s k tok = Some reps <->
+   exists pre a b raw known post,
+     hist = pre ++ Learn k a b raw known :: post /\ spec_payload_ok a b raw = true /\ a < tok <= b /\
+     forallb (fun o => negb (accepted_overlap k (a + 1) b o)) post = true /\
+     option_map e_reps (spec_maintain_all k post (spec_entry_of a b raw known)) = Some reps).
+Proof.
+  intros Hok Hrun. rewrite (lookup_refines hist s k tok Hok Hrun). unfold spec_lookup. split.
+  - destruct (spec_entry hist k tok) as [e|] eqn:E; [|discriminate]. intros [= <-].
+    destruct (spec_entry_inv hist k tok e E) as (pre & a & b & raw & known & post & H1 & H2 & H3 & H4 & H5).
+    exists pre, a, b, raw, known, post. rewrite H5. repeat split; assumption || reflexivity || lia.
+  - intros (pre & a & b & raw & known & post & -> & H2 & H3 & H4 & H5).
+    now rewrite spec_latest_wins.
+Qed.
+
+(* ------------------------------------------------------------------------------------ *)
+(* P/Q. the driver's range check is the invariant; exactly which range lists are reachable *)
+(* ------------------------------------------------------------------------------------ *)
+(* ---- P. the boolean range check of the driver is the invariant ---- *)
+
+Definition range_of (t : tablet) : Z * Z := (t_first t, t_last t).
+
+Lemma list_inv_of_tablets_inv l : tablets_inv l -> list_inv l.
+Proof.
+  intros [Hwf Hord]. split; [apply Forall_forall; intros t Ht; exact (Hwf t Ht)|].
+  clear Hwf. induction l as [|a r IH]; [constructor|]. constructor.
+  - apply IH. intros i j u v Hij Hi Hj. apply (Hord (S i) (S j) u v); [lia|assumption|assumption].
+  - apply Forall_forall. intros y Hy. apply In_nth_error in Hy as [j Hj].
+    apply (Hord 0%nat (S j) a y); [lia|reflexivity|assumption].
+Qed.
+
+Lemma ranges_okb_list_inv l : ranges_okb (map range_of l) = true <-> list_inv l.
+Proof.
+  induction l as [|x r IH].
+  - split; [intros _; split; constructor|reflexivity].
+  - cbn [map ranges_okb range_of]. rewrite !andb_true_iff, IH. rewrite !i64_ok_b. split.
+    + intros [[[[Hfl Hf] Hl] Hnext] [Hwf Hss]]. split.
+      * constructor; [|assumption]. unfold t_wf. split; [assumption|]. split; [assumption|lia].
+      * constructor; [assumption|]. destruct r as [|y r']; [constructor|].
+        cbn [map range_of] in Hnext. apply Z.ltb_lt in Hnext.
+        inversion Hss as [|? ? _ Hall]; subst. inversion Hwf as [|? ? Hy _]; subst.
+        constructor; [exact Hnext|]. apply Forall_forall. intros z Hz.
+        rewrite Forall_forall in Hall. specialize (Hall z Hz). unfold lt_tab in *.
+        destruct Hy as (_ & _ & Hy). lia.
+    + intros [Hwf Hss]. inversion Hwf as [|? ? (Hf & Hl & Hfl) Hwf']; inversion Hss as [|? ? Hss' Hall]; subst.
+      split; [|split; assumption]. split; [split; [split; [lia|assumption]|assumption]|].
+      destruct r as [|y r']; [reflexivity|]. cbn [map range_of]. apply Z.ltb_lt.
+      inversion Hall; subst. assumption.
+Qed.
+
+(* C15_ranges_okb_iff *)
+Lemma ranges_okb_iff l : ranges_okb (map range_of l) = true <-> tablets_inv l.
+Proof.
+  rewrite ranges_okb_list_inv. split; [apply list_inv_tablets_inv|apply list_inv_of_tablets_inv].
+Qed.
+
+(* ---- Q. exactly which range lists are reachable ---- *)
+
+(* the invariant, sharpened: a stored tablet never starts at i64::MIN (first = a + 1) *)
+Definition first_gt_min (s : info) : Prop :=
+  forall k t, In t (tt_list (or_empty (find_table s k))) -> i64_min < t_first t.
+
+Lemma step_first_gt_min s o s' :
+  state_inv s -> op_i64 o -> first_gt_min s -> step s o = Some s' -> first_gt_min s'.
+Proof.
+  intros Hinv Hok Hn Hstep. destruct o as [k a b raw known|kss rm cu rc]; cbn [step] in Hstep.
+  - destruct Hok as [Ha Hb]. destruct (payload_check a b raw) as [[[f l] r]|e] eqn:E; [|now injection Hstep as <-].
+    destruct (learn_tablet a b raw known f l r Ha Hb E) as (Hwf & Hdc & Ef & _).
+    destruct (info_add_inv s k _ Hinv Hwf Hdc) as (s1 & E1 & _ & Hother & tt' & Ett' & _ & Hin').
+    rewrite E1 in Hstep. injection Hstep as <-.
+    intros k' t Ht. destruct (tkey_eqb k k') eqn:Ek.
+    + apply tkey_eqb_eq in Ek. subst k'. rewrite Ett' in Ht. cbn [or_empty] in Ht.
+      apply Hin' in Ht as [->|[Ht _]]; [|exact (Hn k t Ht)]. rewrite Ef. destruct Ha as [Ha _]. revert Ha. generalize i64_min. intros; lia.
+    + rewrite Hother in Ht; [exact (Hn k' t Ht)|]. intros ->. now rewrite tkey_eqb_refl in Ek.
+  - injection Hstep as <-. intros k t Ht. rewrite info_maintenance_lists in Ht by assumption.
+    destruct (keep_table kss k); [|now cbn in Ht].
+    apply filter_map_In in Ht as (x & Hx & Ex).
+    destruct (maint_tablet_range rm cu rc x t Ex) as [-> _]. exact (Hn k x Hx).
+Qed.
+
+Lemma run_from_first_gt_min h : forall s0 s,
+  state_inv s0 -> first_gt_min s0 -> Forall op_i64 h -> run_from (Some s0) h = Some s -> first_gt_min s.
+Proof.
+  induction h as [|o h IH]; intros s0 s Hinv Hn Hok Hrun.
+  - cbn in Hrun. now injection Hrun as <-.
+  - inversion Hok as [|? ? Ho Hh]; subst. destruct (step_inv s0 o Hinv Ho) as (s1 & E1 & Hinv1).
+    cbn [run_from fold_left] in Hrun. rewrite E1 in Hrun.
+    apply (IH s1 s Hinv1 (step_first_gt_min s0 o s1 Hinv Ho Hn E1) Hh Hrun).
+Qed.
+
+Definition ranges_reachable (rs : list (Z * Z)) : Prop :=
+  ranges_okb rs = true /\ Forall (fun r => i64_min < fst r) rs.
+
+Lemma take_while_all {A} (p : A -> bool) l : (forall x, In x l -> p x = true) -> take_while p l = l.
+Proof.
+  induction l as [|a r IH]; intros H; cbn; [reflexivity|]. rewrite (H a (or_introl eq_refl)).
+  f_equal. apply IH. intros x Hx. apply H. now right.
+Qed.
+
+(* appending a tablet that lies to the right of everything *)
+Lemma add_tablet_right l fl t :
+  (forall x, In x l -> t_last x < t_first t) -> t_first t <= t_last t -> Forall t_wf l ->
+  add_tablet (mkTT l fl) t = Some (mkTT (l ++ [t]) (match t_failed t with Some _ => true | None => fl end)).
+Proof.
+  intros Hr Ht Hwf. unfold add_tablet, partition_point. cbn [tt_list tt_flag].
+  rewrite !take_while_all.
+  - rewrite Nat.ltb_irrefl, firstn_all, skipn_all. reflexivity.
+  - intros x Hx. specialize (Hr x Hx). rewrite Forall_forall in Hwf. destruct (Hwf x Hx) as (_ & _ & Hx'). lia.
+  - intros x Hx. specialize (Hr x Hx). rewrite Forall_forall in Hwf. destruct (Hwf x Hx) as (_ & _ & Hx'). lia.
+Qed.
+
+Lemma StronglySorted_app_inv {A} (R : A -> A -> Prop) l1 l2 :
+  StronglySorted R (l1 ++ l2) ->
+  StronglySorted R l1 /\ StronglySorted R l2 /\ (forall x y, In x l1 -> In y l2 -> R x y).
+Proof.
+  induction l1 as [|a l1 IH]; cbn [app]; intros H.
+  - split; [constructor|]. split; [assumption|]. intros x y [].
+  - inversion H as [|? ? Hss Hall]; subst. destruct (IH Hss) as (H1 & H2 & H3). rewrite Forall_forall in Hall.
+    split; [constructor; [assumption|]; apply Forall_forall; intros y Hy; apply Hall, in_or_app; now left|].
+    split; [assumption|]. intros x y [<-|Hx] Hy; [apply Hall, in_or_app; now right|now apply H3].
+Qed.
+
+Definition plain_tablet (r : Z * Z) : tablet := mkTablet (fst r) (snd r) (mk_reps []) None.
+Definition learn_range (k : tkey) (r : Z * Z) : op := Learn k (fst r - 1) (snd r) [] [].
+
+Lemma learn_range_step s k l0 fl r :
+  find_table s k = Some (mkTT l0 fl) \/ (find_table s k = None /\ l0 = [] /\ fl = false) ->
+  list_inv (l0 ++ [plain_tablet r]) -> i64_min < fst r ->
+  exists s', step s (learn_range k r) = Some s' /\ find_table s' k = Some (mkTT (l0 ++ [plain_tablet r]) fl).
+Proof.
+  intros Hfind [Hwf Hss] Hmin. destruct r as [f l]. cbn [fst snd] in *.
+  apply Forall_app in Hwf as [Hwf0 Hwt]. inversion Hwt as [|? ? (Hf & Hl & Hfl) _]; subst. cbn in Hf, Hl, Hfl.
+  destruct (StronglySorted_app_inv _ _ _ Hss) as (_ & _ & Hcross).
+  unfold learn_range. cbn [step fst snd].
+  assert (Hpc : payload_check (f - 1) l [] = Ok (f, l, [])).
+  { unfold payload_check. destruct (Z.leb_spec l (f - 1)); [lia|]. cbn [conv_shards].
+    replace (f - 1 + 1) with f by lia. unfold wrap64, token_new, i64_ok, i64_min, i64_max in *.
+    rewrite Z.mod_small by lia. destruct (Z.eqb_spec (f + 2 ^ 63 - 2 ^ 63) (- 2 ^ 63)); [lia|].
+    destruct (Z.eqb_spec l (- 2 ^ 63)); [lia|]. do 3 f_equal. lia. }
+  rewrite Hpc. change (from_raw_tablet f l [] []) with (plain_tablet (f, l)).
+  unfold info_add. pose proof (upsert_spec k (fun tt => add_tablet tt (plain_tablet (f, l))) (i_tables s)) as Hup.
+  cbn beta in Hup. change (afind (i_tables s) k) with (find_table s k) in Hup.
+  assert (Eold : or_empty (find_table s k) = mkTT l0 fl).
+  { destruct Hfind as [->|(-> & -> & ->)]; reflexivity. }
+  rewrite Eold, add_tablet_right in Hup.
+  - destruct Hup as (m' & E1 & E2 & _). rewrite E1. cbn [option_map]. eexists. split; [reflexivity|]. exact E2.
+  - intros x Hx. apply (Hcross x (plain_tablet (f, l)) Hx). now left.
+  - exact Hfl.
+  - exact Hwf0.
+Qed.
+
+Lemma reach_ranges k ts : forall s0 l0 fl,
+  state_inv s0 ->
+  find_table s0 k = Some (mkTT l0 fl) \/ (find_table s0 k = None /\ l0 = [] /\ fl = false) ->
+  list_inv (l0 ++ map plain_tablet ts) -> Forall (fun r => i64_min < fst r) ts ->
+  exists s, run_from (Some s0) (map (learn_range k) ts) = Some s /\
+            tt_list (or_empty (find_table s k)) = l0 ++ map plain_tablet ts.
+Proof.
+  induction ts as [|r ts IH]; intros s0 l0 fl Hinv Hfind Hli Hmin.
+  - exists s0. split; [reflexivity|]. rewrite app_nil_r. destruct Hfind as [->|(-> & -> & _)]; reflexivity.
+  - inversion Hmin as [|? ? Hr Hmin']; subst. cbn [map] in *.
+    assert (Hli1 : list_inv (l0 ++ [plain_tablet r])).
+    { replace (l0 ++ plain_tablet r :: map plain_tablet ts) with ((l0 ++ [plain_tablet r]) ++ map plain_tablet ts) in Hli
+        by (rewrite <- app_assoc; reflexivity).
+      destruct Hli as [Hwf Hss]. apply Forall_app in Hwf as [Hwf _].
+      destruct (StronglySorted_app_inv _ _ _ Hss) as (Hss1 & _). now split. }
+    destruct (learn_range_step s0 k l0 fl r Hfind Hli1 Hr) as (s1 & E1 & F1).
+    assert (Hinv1 : state_inv s1).
+    { assert (Ho : op_i64 (learn_range k r)).
+      { destruct Hli1 as [Hwf _]. apply Forall_app in Hwf as [_ Hwt]. inversion Hwt as [|? ? (Hf & Hl & _) _]; subst.
+        cbn in Hf, Hl. unfold learn_range, op_i64, i64_ok, i64_min, i64_max in *. lia. }
+      destruct (step_inv s0 _ Hinv Ho) as (s1' & E1' & Hinv1). congruence. }
+    cbn [run_from fold_left]. rewrite E1.
+    destruct (IH s1 (l0 ++ [plain_tablet r]) fl Hinv1 (or_introl F1)) as (s & Hrun & Hlist).
+    + now rewrite <- app_assoc.
+    + exact Hmin'.
+    + exists s. split; [exact Hrun|]. now rewrite Hlist, <- app_assoc.
+Qed.
+
+Lemma map_range_plain ts : map range_of (map plain_tablet ts) = ts.
+Proof. induction ts as [|[f l] ts IH]; [reflexivity|]. cbn. now rewrite IH. Qed.
+
+(* C15_reachable_iff: the range lists a table can hold are EXACTLY the sorted, pairwise disjoint lists of
+   non-empty ranges inside i64 that do not start at i64::MIN *)
+Lemma reachable_iff k rs :
+  (exists hist s, Forall op_i64 hist /\ run hist = Some s /\
+                  map range_of (tt_list (or_empty (find_table s k))) = rs) <-> ranges_reachable rs.
+Proof.
+  split.
+  - intros (hist & s & Hok & Hrun & <-). pose proof (run_state_inv hist s Hok Hrun) as Hinv. split.
+    + apply ranges_okb_list_inv. now destruct (or_empty_ok s k Hinv).
+    + apply Forall_forall. intros r Hr. apply in_map_iff in Hr as (t & <- & Ht). cbn.
+      refine (run_from_first_gt_min hist info_empty s state_inv_empty _ Hok Hrun k t Ht). intros k' t' [].
+  - intros [Hokb Hmin]. exists (map (learn_range k) rs).
+    assert (Hli : list_inv ([] ++ map plain_tablet rs)).
+    { cbn [app]. apply ranges_okb_list_inv. now rewrite map_range_plain. }
+    destruct (reach_ranges k rs info_empty [] false state_inv_empty (or_intror (conj eq_refl (conj eq_refl eq_refl))) Hli Hmin)
+      as (s & Hrun & Hlist).
+    exists s. split; [|split; [exact Hrun|]].
+    + apply Forall_forall. intros o Ho. apply in_map_iff in Ho as (r & <- & Hr).
+      destruct Hli as [Hwf _]. cbn [app] in Hwf. rewrite Forall_forall in Hwf, Hmin.
+      destruct (Hwf (plain_tablet r) (in_map _ _ _ Hr)) as (Hf & Hl & _). specialize (Hmin r Hr).
+      cbn in Hf, Hl. unfold learn_range, op_i64, i64_ok, i64_min, i64_max in *. lia.
+    + rewrite Hlist. cbn [app]. apply map_range_plain.
+Qed.
+
+(* after every step of every history: the prefix ran, its tables satisfy the invariant and its lookups are
+   the specification of the prefix *)
+Lemma run_every_prefix h1 h2 :
+  Forall op_i64 (h1 ++ h2) ->
+  exists s1 s, run h1 = Some s1 /\ run (h1 ++ h2) = Some s /\
+    (forall k tt, find_table s1 k = Some tt -> tablets_inv (tt_list tt)) /\
+    (forall k tok, lookup s1 k tok = spec_lookup h1 k tok).
+Proof.
+  intros Hok. assert (Hok1 : Forall op_i64 h1) by (apply Forall_app in Hok; tauto).
+  destruct (run_total h1 Hok1) as (s1 & E1 & _). destruct (run_total _ Hok) as (s & E & _).
+  exists s1, s. split; [exact E1|]. split; [exact E|]. split.
+  - intros k tt. now apply (run_tablets_inv h1 s1 k tt Hok1 E1).
+  - intros k tok. now apply lookup_refines.
+Qed.
